@@ -235,6 +235,7 @@ type VC struct {
 	prelude     []*preludeEntry
 	sentinels   []Term
 	flagsUsed   []string
+	globalInits []globalInit
 	needBytes   bool
 	frameOn     bool
 	topEntry    Term
@@ -802,4 +803,11 @@ func (vc *VC) ghostComp(name string) (string, bool) {
 func (vc *VC) bytesOf(arr, off, ln Term) Term {
 	vc.needBytes = true
 	return mk(fmt.Sprintf("(bytes-of %s %s %s)", arr.S, off.S, ln.S), &Sort{K: SOpaque, Name: "Bytes"})
+}
+
+type globalInit struct {
+	pkg  *types.Package
+	name string
+	typ  types.Type
+	cv   *CV
 }
